@@ -402,6 +402,14 @@ def gen_stream(rng, modes=None, rich=False, lengths=None, tagged=True, italics=F
                     col = rng.choice([0, 0, 4])
                     t = row_text(32 - col if not lengths else 40)
                     line['rows'].append({'row': r, 'col': col, 'items': text_items(rng, t, rich, single)})
+                    # rows of a block may be addressed with a tab offset or by an italics preamble
+                    k2 = rng.random()
+                    if k2 < 0.2:
+                        line['rows'][-1]['to'] = rng.choice([1, 2, 3])
+                        if not lengths:
+                            line['rows'][-1]['items'] = line['rows'][-1]['items'][:32 - col - 3]
+                    elif k2 < 0.35:
+                        line['rows'][-1]['italic'] = True
                     if edits and rng.random() < 0.5:
                         line['rows'][-1]['items'] = erase_edits(rng, line['rows'][-1]['items'], single)
                 seg['lines'].append(line)
@@ -453,7 +461,7 @@ def encode_stream(st):
         frame += len(ws) + 1
 
     def rowspec(row, r):
-        return {'row': row, 'col': 0 if r.get('italic') else r['col'], 'to': 0, 'pac_italic': bool(r.get('italic')),
+        return {'row': row, 'col': 0 if r.get('italic') else r['col'], 'to': r.get('to', 0), 'pac_italic': bool(r.get('italic')),
                 'pac_underline': False, 'pac_color': None, 'items': r['items'], 'lead_pad': r.get('lead_pad', False)}
 
     for si, seg in enumerate(st['segments']):
